@@ -15,7 +15,7 @@
 From Coq Require Import ZArith List Bool Permutation.
 From LZ4V Require Import Gen.Consts Spec.BlockSpec Spec.XXH32 Spec.FrameSpec.
 From LZ4V Require Import Model.Sparse Model.CliOpts Model.CompressPipe.
-From LZ4V Require Import Proofs.SparseProofs Proofs.CliProofs.
+From LZ4V Require Import Proofs.SparseProofs Proofs.CliProofs Proofs.CliToyLib.
 Import ListNotations.
 Local Open Scope Z_scope.
 
@@ -190,6 +190,34 @@ Example C04_cli_options_example :
             c_level s = 9 /\ io_blockSizeId (c_prefs s) = 5 /\ io_blockSize (c_prefs s) = 65537 /\
             io_blockIndependence (c_prefs s) = 0 /\ io_blockChecksum (c_prefs s) = 1 /\
             io_streamChecksum (c_prefs s) = 0 /\ io_contentSizeFlag (c_prefs s) = 1 /\
-            valid_prefs (prefs_of s 12345) (repeat 7 12345) /\
+            valid_prefs (prefs_of s 5) [1; 2; 3; 4; 5] /\
             parse_args cli_init [A_B 8] = None /\ parse_args cli_init [A_fast (Some 0)] = None.
-Proof. eexists. vm_compute. repeat split; try (intro; discriminate). right. reflexivity. Qed.
+Proof.
+  exists (mkCli 9 false (mkIo 5 65537 1 0 0 1 0 1)). vm_compute.
+  repeat split; try (intro; discriminate). right. reflexivity.
+Qed.
+
+(* the library contracts assumed above are satisfiable (by a toy library emitting stored blocks, Proofs/CliToyLib.v:
+   not a model of liblz4), so the conditional theorems are not vacuous; instantiated, no hypothesis is left *)
+Example C04_contracts_satisfiable :
+  header_contract toy_header /\ (forall sk, update_contract toy_bdec sk toy_update) /\ end_contract toy_end /\
+  (forall sk, frame_contract toy_bdec sk toy_frame) /\ block_contract toy_bdec toy_block.
+Proof.
+  split; [exact toy_header_contract|]. split; [exact toy_update_contract|]. split; [exact toy_end_contract|].
+  split; [exact toy_frame_contract|exact toy_block_contract].
+Qed.
+Example C04_cli_roundtrip_instance :
+  forall (skipcrc mt : bool) (args : list arg) (s : cli_state) (fileSize : Z) (dict content : list Z),
+  parse_args cli_init args = Some s ->
+  (fileSize = 0 \/ fileSize = lenZ content) -> lenZ content < U64_MAX1 ->
+  let F := cli_compress toy_header toy_frame toy_update toy_end toy_block mt s fileSize dict content in
+  stream_decode toy_bdec skipcrc (S (length F)) dict [] F = Some content.
+Proof. exact toy_cli_roundtrip. Qed.
+(* a concrete run of the ST model: -B32 -BD -BX --content-size on 70 bytes = 3 reads (32, 32, 6), multi-block path *)
+Example C04_st_run_example :
+  let content := map Z.of_nat (List.seq 0 70) in
+  exists s, parse_args cli_init [A_B 32; A_BD; A_BX; A_content_size] = Some s /\
+    let F := cli_compress toy_header toy_frame toy_update toy_end toy_block false s 70 [] content in
+    length F = 117%nat /\ stream_decode toy_bdec false (S (length F)) [] [] F = Some content /\
+    l_blocks (st_layout s 70 70) = [32; 32; 6] /\ l_bsid (st_layout s 70 70) = 4 /\ l_csize (st_layout s 70 70) = Some 70.
+Proof. cbv zeta. exists (mkCli 1 false (mkIo 4 32 1 1 0 1 0 0)). vm_compute. repeat split. Qed.
